@@ -246,6 +246,13 @@ class Merged:
         for a in ('LEVEL_TEXT', 'LEVEL_NOTE', 'TECHNIQUE'):
             if hasattr(parent, a):
                 setattr(self, a, getattr(parent, a))
+        # the claim of the property = the parent's claim + what each extension slice adds
+        add = ['[%s] %s' % (m.__name__.split('.')[-1], m.LEVEL_TEXT) for m in exts if getattr(m, 'LEVEL_TEXT', '')]
+        if add and hasattr(parent, 'LEVEL_TEXT'):
+            self.LEVEL_TEXT = parent.LEVEL_TEXT + ' || Extension slices: ' + ' || '.join(add)
+        addn = ['[%s] %s' % (m.__name__.split('.')[-1], m.LEVEL_NOTE) for m in exts if getattr(m, 'LEVEL_NOTE', '')]
+        if addn and hasattr(parent, 'LEVEL_NOTE'):
+            self.LEVEL_NOTE = parent.LEVEL_NOTE + ' || ' + ' || '.join(addn)
         if any(hasattr(m, 'pre_build') for m in self.parts):
             self.pre_build = self._pre_build
         if any(hasattr(m, 'ties') for m in self.parts):
